@@ -355,10 +355,10 @@ def run_resume(ctx, l, lb, texts, alphabet, rng, feats, case0, expcache):
         ctx.count('resume:parser-had-reduced-on-the-bad-lookahead')
         return
     # (b) the same through Lark.parse(on_error=...)
-    try:
-        got2 = ['ok', canon_tree(l.parse(text, on_error=lambda e: True), True, True)]
-    except Exception as e2:
-        got2 = ['exc', canon_exc(e2)]
+    got2 = call(ctx, 'parse(on_error)', l.parse, text, on_error=lambda e: True, pos=True, meta=True, budget=2_000_000)
+    if got2[0] == 'budget':
+        ctx.violation('parse(on_error)-does-not-end', case, {'budget': got2[1]})
+        return
     ctx.count('on_error-cases')
     if exp_blank[0] == 'ok' and got2 != exp_blank:
         ctx.violation('parse(on_error)-differs-from-parse-of-remaining-input', case, {'on_error': got2, 'parse_of_equivalent_text': exp_blank})
